@@ -1480,6 +1480,10 @@ func (t *itype) assignableTo(o *itype) bool {
 		return true
 	}
 
+	if t.isNil() || o.isNil() {
+		return false
+	}
+
 	if t.TypeOf().AssignableTo(o.TypeOf()) {
 		return true
 	}
